@@ -637,7 +637,9 @@ class Verifier:
             exc: VExc = outcome
             matching = [c for (n, c) in raise_clauses if self.cdb.exc_name_matches(it, exc, n)]
             ename = exc.cls.rsplit(".", 1)[-1]
-            if matching:
+            if any(self.cdb.exc_name_matches(it, exc, n) for n in con.may_raise):
+                it.notes.add(f"{con.name}: {ename} is allowed under a condition the contract leaves open (outside its stated domain)")
+            elif matching:
                 it.oblige(f"raise-licensed:{ename}", z3.Or(matching), kindp, site=("lic", ename))
             else:
                 it.oblige(f"unexpected-exception:{ename}", z3.BoolVal(False), kindp, site=("unexp", ename))
